@@ -39,7 +39,10 @@ def parse_line(line):
     p = line.split()
     h = p[0].split(":")
     tag = h[1] if len(h) > 1 else ""
-    return h[0], gen.TYPE_ALIAS.get(tag, tag), [int(x) for x in p[1:]]
+    fn, a = h[0], [int(x) for x in p[1:]]
+    if fn.startswith("re_"): fn, a = fn[3:], a[len(a) // 2:]       # the second operand set is the one reported
+    elif fn.endswith("eq_self") and len(a) == 1: fn, a = fn[:-7], [a[0], a[0]]
+    return fn, gen.TYPE_ALIAS.get(tag, tag), a
 def tdiv(a, b):
     q = abs(a) // abs(b)
     return q if (a >= 0) == (b >= 0) else -q
@@ -99,6 +102,26 @@ class C01(Suite):
         return None if isnan_raw(r) else "result %d is not NaN, exact result %d is out of range" % (r, e)
 
 # ---------------------------------------------------------------------------------------------
+def scalar_special_pairs(rng, ops=("mul_s", "rmul_s", "muleq_s", "div_s", "diveq_s")):
+    """(raw, integer) pairs for the mixed operators that no single-operand boundary list produces:
+    both operands at an integer square root of a limit (the product sits on the limit), and the dividends that trap
+    when divided by -1 in a narrower signed type (INT_MIN of every width, also scaled by 2^16)"""
+    out = []
+    for t in INT_TYPES + list(gen.TYPE_ALIAS):
+        lo, hi = int_type_range(gen.TYPE_ALIAS.get(t, t))
+        for r in gen.SQRT_LIMITS:
+            for n in (r, -r):
+                if lo <= n <= hi and n != 0:
+                    for a in (r, -r, r + 1, r - 1):
+                        for f in ops: out.append("%s:%s %d %d" % (f, t, a, n))
+        if lo < 0:
+            for w in (8, 16, 32, 48, 64):
+                for a0 in (-(1 << (w - 1)), -(1 << (w - 1)) + 1, (1 << (w - 1)), -(1 << (w - 1)) * 65536, (-(1 << (w - 1)) + 1) * 65536):
+                    if abs(a0) <= NANP:
+                        for n in (-1, 1, lo, lo + 1):
+                            for f in ops: out.append("%s:%s %d %d" % (f, t, a0, n))
+    return out
+
 class C02(Suite):
     pid = "C02"; spec_module = "FixedMath.Spec.C02"
     def ops(self, tier, rng, pool):
@@ -127,6 +150,7 @@ class C02(Suite):
                         q = tgt // nn
                         for a in (q - 1, q, q + 1):
                             if finite(a): out.append("mul_s:%s %d %d" % (t, a, nn))
+        out += scalar_special_pairs(rng, ("mul_s", "rmul_s", "muleq_s"))
         return out
     def nontrivial(self, fn, tag, a):
         p = a[0] * a[1]
@@ -151,7 +175,7 @@ class C03(Suite):
         fin = [v for v in pool if finite(v)]
         pairs = set()
         sm = [v for v in fin if abs(v) <= 70000 or 2**46 <= abs(v) <= 2**48 or abs(v) >= 2**62]
-        sm = sm[:500] if tier == "quick" else sm
+        sm = rng.sample(sm, min(len(sm), 500)) if tier == "quick" else sm
         for a in sm:
             for b in rng.sample(sm, min(len(sm), 60)) + [0, 1, -1, 2, -2, 65536, -65536]: pairs.add((a, b))
         for _ in range(n):
@@ -159,6 +183,11 @@ class C03(Suite):
             pairs.add((gen.strat(rng, 48), gen.strat(rng, 40)))
             pairs.add((rng.choice(fin), gen.strat(rng, 20)))
         pairs |= {(-2**47, -1), (-2**47, 1), (2**47, 1), (-2**47 + 1, -1), (2**47 - 1, 1), (-F, -1), (F, -1), (F, 0), (0, 0)}
+        # every power of two (and its neighbours) as divisor and as dividend
+        for k in range(0, 63):
+            for d in ((1 << k), -(1 << k), (1 << k) + 1, (1 << k) - 1):
+                for a in [gen.strat(rng, 47) for _ in range(4)] + [65536, -65536, 1000000 * 65536, (1 << k), -(1 << k), 3 << max(k - 1, 0)]:
+                    if finite(d) and finite(a): pairs.add((a, d)); pairs.add((d, a))
         out = []
         for a, b in sorted(pairs):
             for f in ("div", "diveq", "div_fn"): out.append("%s %d %d" % (f, a, b))
@@ -168,6 +197,7 @@ class C03(Suite):
             for nn in tv:
                 for a in [rng.choice(fin) for _ in range(3)] + [gen.strat(rng) for _ in range(3)] + [0, 1, -1, F, -F]:
                     for f in ("div_s", "diveq_s"): out.append("%s:%s %d %d" % (f, t, a, nn))
+        out += scalar_special_pairs(rng, ("div_s", "diveq_s"))
         return out
     def nontrivial(self, fn, tag, a):
         return a[1] == 0 or abs(a[0]) >= 2**46 or abs(a[1]) == 1
@@ -370,6 +400,7 @@ class C17(Suite):
                 for a in (q, q - 1, q + 1, q + rng.randrange(0, 1 + q // 64), q - rng.randrange(0, 1 + q // 64), 2 * q, q // 2 + 1):
                     for sa in (a, -a):
                         if abs(sa) <= F: out += ["mul_s:%s %d %d" % (t, sa, k), "rmul_s:%s %d %d" % (t, sa, k), "muleq_s:%s %d %d" % (t, sa, k)]
+        out += scalar_special_pairs(rng)
         for a in rng.sample(fin, min(len(fin), 200)):
             out += ["add %d %d" % (a, -a), "sub %d %d" % (a, a), "mul %d 65536" % a, "div %d 65536" % a]
         # a-b == a+(-b) and commutativity at the overflow boundaries
@@ -531,12 +562,14 @@ class C16(Suite):
         def some_a(k):
             return [rng.choice(fin) for _ in range(k)] + [gen.strat(rng) for _ in range(k)] + [gen.strat(rng, 40) for _ in range(k)] + [0, 65536, -65536, F, -F]
         for t in INT_TYPES:
-            for nn in gen.type_values(rng, t, m, pool):
+            tv = gen.type_values(rng, t, m, pool, derived_cap=12, cap=(260 if tier == "quick" else None))
+            for nn in tv:
                 for a in some_a(2):
                     for f in ("add_i", "radd_i", "addeq_i", "sub_i", "rsub_i", "subeq_i", "mul_s", "rmul_s", "muleq_s", "div_s", "diveq_s", "rdiv_i",
                               "ref_add_i", "ref_sub_i", "ref_rsub_i", "ref_rdiv_i"):
                         out.append("%s:%s %d %d" % (f, t, a, nn))
-        for b in float_patterns(rng, m * 20):
+        out += scalar_special_pairs(rng)
+        for b in float_patterns(rng, m * (6 if tier == "quick" else 20)):
             for a in some_a(1):
                 for f in ("add_f", "radd_f", "addeq_f", "sub_f", "rsub_f", "subeq_f", "mul_f", "rmul_f", "muleq_f", "div_f", "rdiv_f", "diveq_f",
                           "ref_add_f", "ref_sub_f", "ref_rsub_f", "ref_mul_f", "ref_div_f", "ref_rdiv_f"):
@@ -554,6 +587,7 @@ class C16(Suite):
                     out.append("%s %d %d" % (f, a, b))
         return out
     def nontrivial(self, fn, tag, a):
+        if "mul" in fn and tag in INT_TYPES and abs(a[0] * a[1]) >= 2**62: return True
         return tag == "u64" and a[1] >= 2**63 or abs(a[0]) >= 2**46 or fn.endswith("_d")
     def oracle(self, fn, tag, a, r):
         x, t = a
@@ -768,6 +802,23 @@ class C09(Suite):
             y = x + k * 2 * PHI
             if abs(y) < 2**62:
                 for f in ("sin", "cos"): out.append("%s %d" % (f, x)); out.append("%s %d" % (f, y))
+        # the seams of the range reduction (residues around -pi/2, 3pi/2, 0, pi) at many multiples of the period, small
+        # and large, and the largest magnitudes, where a reduction through a reciprocal or through double gives way
+        seams = (-102945, -102944, -102943, -102942, 102943, 102944, 308829, 308830, 308831, -1, 0, 1, 205886, 205887, 205888)
+        ms = set(rng.sample(range(0, 60000), 2500 if tier == "quick" else 60000)) | {2**k + d for k in range(16, 43) for d in (-1, 0, 1)}
+        for m_ in ms:
+            for sd in seams:
+                for x in (m_ * 2 * PHI + sd, -(m_ * 2 * PHI) + sd):
+                    if abs(x) < 2**62: out.append("sin %d" % x); out.append("cos %d" % x)
+        for _ in range(15000 if tier == "quick" else 400000):
+            x = rng.randrange(2**58, 2**62) * rng.choice((1, -1))
+            out.append("sin %d" % x); out.append("cos %d" % x)
+        for _ in range(300 if tier == "quick" else 6000):
+            m_ = rng.randrange(2**38, 2**43 + 2**42)
+            for sd0 in (-102944, 308830, 0, 205887):
+                for d in range(-1200, 1201, 37):
+                    x = m_ * 2 * PHI + sd0 + d
+                    if abs(x) < 2**62: out.append("sin %d" % x); out.append("cos %d" % (-x))
         for v in pool:
             if abs(v) < 2**62: out.append("sin %d" % v); out.append("cos %d" % v); out.append("sin_range %d" % v)
         return out
@@ -1023,7 +1074,7 @@ class C20(Suite):
         out = []
         for t in INT_TYPES:
             lo, hi = int_type_range(t)
-            vals = set(range(max(lo, -400), min(hi, 800) + 1)) | set(gen.type_values(rng, t, 200, pool))
+            vals = set(range(max(lo, -400), min(hi, 800) + 1)) | set(gen.type_values(rng, t, 200, pool, derived_cap=None))
             for v in sorted(vals): out.append("a2r:%s %d" % (t, v))
         for d in range(-360, 361):
             for fn in ("sin_angle", "cos_angle", "tan_angle"):
@@ -1103,11 +1154,12 @@ def c07_ops(rng, pool, scale):
         for y in extreme + rng.sample(vals, 6 * scale) + [gen.strat(rng) for _ in range(3 * scale)]:
             for f in BINARY_FX: out.append("%s %d %d" % (f, x, y))
     for t in INT_TYPES:
-        tv = gen.type_values(rng, t, 8 * scale, pool)
+        tv = gen.type_values(rng, t, 8 * scale, pool, derived_cap=20, cap=300 * scale)
         for n in tv:
             for f in INT_OPS1: out.append("%s:%s %d" % (f, t, n))
             for x in rng.sample(extreme, 5) + [gen.strat(rng)]:
                 for f in INT_OPS2: out.append("%s:%s %d %d" % (f, t, x, n))
+    out += scalar_special_pairs(rng)
     for b in float_patterns(rng, 60 * scale):
         out.append("fp_to_fixed:f32 %d" % b)
         for f in ("sin_angle", "cos_angle", "tan_angle"): out.append("%s:f32 %d" % (f, b))
@@ -1126,10 +1178,24 @@ def c07_ops(rng, pool, scale):
     for d in sorted(ds): out += ["sin_aprox %d" % d, "cos_aprox %d" % d]
     return out
 
+def cross_suite_sample(rng, pool, per_suite):
+    """C07 and C08 quantify over every entry point: a sample of the inputs that the suites of the other properties
+    construct for their own boundaries (half of it from each suite's non-trivial inputs)"""
+    out = []
+    for pid, cls in sorted(SUITES.items()):
+        if pid in ("C07", "C08"): continue
+        s = cls()
+        try: ls = s.ops("quick", random.Random(rng.randrange(2**32)), pool)
+        except Exception: continue
+        if len(ls) > 60000: ls = rng.sample(ls, 60000)
+        nt = [l for l in ls if s.nontrivial(*parse_line(l))]
+        out += rng.sample(nt, min(len(nt), per_suite // 2)) + rng.sample(ls, min(len(ls), per_suite // 2))
+    return out
+
 class C07(Suite):
     pid = "C07"; spec_module = "FixedMath.Spec.C07"; needs_abacus_leg = True; ub_sample = 250000
     def ops(self, tier, rng, pool):
-        return c07_ops(rng, pool, 1 if tier == "quick" else 8)
+        return c07_ops(rng, pool, 1 if tier == "quick" else 8) + cross_suite_sample(rng, pool, 400 if tier == "quick" else 6000)
     def nontrivial(self, fn, tag, a):
         return any(abs(x) >= F for x in a) or fn in ("sin_aprox", "cos_aprox") and a[0] < 0
     def oracle(self, fn, tag, a, r):
@@ -1150,6 +1216,7 @@ class C08(Suite):
             for NN in (r * r, r * r + r, r * r + r + 1):
                 v = NN >> 16
                 if v < 2**47: out += ["sqrt_abacus %d" % v, "sqrt_std %d" % v]
+        out += cross_suite_sample(rng, pool, 400 if tier == "quick" else 6000)
         return out
     def nontrivial(self, fn, tag, a):
         return fn.startswith("sqrt") or fn.startswith("hypot") or fn.startswith("asin")
